@@ -1,5 +1,66 @@
-import SSModel.Extract
-import SSLemmas.Extract
-/-! C03 — placeholder; theorems follow. -/
+import SSModel.Chain
+import SSLemmas.Chain
+/-!
+C03 — a suspended await / yield-from chain extracts as the path an exception would take.
+Property theorems only.  Model: `SSModel/Extract.lean` (the traversal) and `SSModel/Chain.lean`
+(chains as environments, `throwPath`); lemmas: `SSLemmas/Chain.lean`.
+-/
 open SS.Extract
-theorem C03_placeholder : True := trivial
+
+/-- **C03_chain_frames**: for a chain of any length and any mix of links (generator-like objects and
+wrappers), `extract(x)` finishes, and its frames are exactly the frames an exception thrown into `x`
+unwinds through (`throwPath`), outermost first, each carrying its owner as origin and un-hidden; the
+leaf is the non-frame object that ends the chain (None if frames tell the whole story); no error. -/
+theorem C03_chain_frames (env : Env) (links : List Link) (x : Item) (leaf : Option Item)
+    (hc : IsChain env links (some x) leaf) (hr : RunsOK links leaf 0) (hp : PlainFrames env)
+    (fuel : Nat) (hf : 2 * links.length + 3 ≤ fuel) :
+    extract env fuel x = .done ((throwPath links).map (fun f => ⟨f, false⟩)) (leafOf leaf) [] :=
+  chain_extract env links x leaf hc hr hp fuel hf
+
+/-- **C03_exhausted**: a finished coroutine / generator / async generator (its frame attribute and what
+it awaits are both None) yields no frames, no leaf and no error, and nothing is left queued. -/
+theorem C03_exhausted (env : Env) (g : Item) (hg : env.isFrame g = false)
+    (hu : env.unwrap g = .seq [none, none]) (hG : 1 ≤ SS.Gen.unwrapGuard) (fuel : Nat) (hf : 2 ≤ fuel) :
+    extract env fuel g = .done [] .none [] := by
+  obtain ⟨n, rfl⟩ : ∃ n, fuel = n + 2 := ⟨fuel - 2, by omega⟩
+  have hng : ¬ (0 + 1 > SS.Gen.unwrapGuard) := by omega
+  simp [extract, run, unwrapPhase, initSt, unwrapStep, hg, hu, handleUnwrap, UnwrapRes.raised, UnwrapRes.isNone,
+    UnwrapRes.children, UnwrapRes.iterErrs, hng, pushUnwrapped, elabStep]
+
+/-- **C03_contexts_irrelevant** (chains): whether contexts are filled in or not, a chain extracts to the
+same frames and leaf (context analysis of plain frames raises nothing in either mode). -/
+theorem C03_contexts_irrelevant (env₁ env₂ : Env) (links : List Link) (x : Item) (leaf : Option Item)
+    (h₁ : IsChain env₁ links (some x) leaf) (h₂ : IsChain env₂ links (some x) leaf) (hr : RunsOK links leaf 0)
+    (p₁ : PlainFrames env₁) (p₂ : PlainFrames env₂) (w₁ : env₁.withContexts = true) (w₂ : env₂.withContexts = false)
+    (fuel : Nat) (hf : 2 * links.length + 3 ≤ fuel) :
+    extract env₁ fuel x = extract env₂ fuel x := by
+  rw [C03_chain_frames env₁ links x leaf h₁ hr p₁ fuel hf, C03_chain_frames env₂ links x leaf h₂ hr p₂ fuel hf]
+
+/-- The frames of the result are the chain's frames in order (projection of the headline theorem). -/
+theorem C03_frames_are_throw_path (env : Env) (links : List Link) (x : Item) (leaf : Option Item)
+    (hc : IsChain env links (some x) leaf) (hr : RunsOK links leaf 0) (hp : PlainFrames env) :
+    ∃ fs l es, extract env (2 * links.length + 3) x = .done fs l es ∧ fs.map (·.frame) = throwPath links ∧ es = [] := by
+  refine ⟨_, _, _, C03_chain_frames env links x leaf hc hr hp _ (Nat.le_refl _), ?_, rfl⟩
+  simp [List.map_map, Function.comp_def]
+
+/-! non-vacuity: coroutine 1 awaits a coroutine-wrapper 5 of coroutine 2, which awaits asend 6 of async
+generator 3, which awaits a Future-like leaf 9. -/
+def chEnv : Env :=
+  { isFrame := fun i => i ≥ 100
+    unwrap := fun i => if i = 1 then .seq [some 101, some 5] else if i = 5 then .one 2 else if i = 2 then .seq [some 102, some 6]
+                       else if i = 6 then .one 3 else if i = 3 then .seq [some 103, some 9] else .none
+    elabFn := fun _ _ => .none, elabHide := fun _ => false, weakrefable := fun i => i < 100 && i != 5 && i != 6
+    genLike := fun i => i = 1 || i = 2 || i = 3
+    frameOf := fun i => if i = 1 then some 101 else if i = 2 then some 102 else if i = 3 then some 103 else none
+    withContexts := true, ctxErrs := fun _ => [] }
+
+def chLinks : List Link := [.gen 1 101, .wrap 5, .gen 2 102, .wrap 6, .gen 3 103]
+
+example : IsChain chEnv chLinks (some 1) (some 9) ∧ RunsOK chLinks (some 9) 0 ∧ PlainFrames chEnv := by
+  refine ⟨?_, ?_, ?_⟩
+  · simp [IsChain, chLinks, chEnv, UnwrapRes.raised, UnwrapRes.isNone]
+  · simp [RunsOK, chLinks, SS.Gen.unwrapGuard]
+  · simp [PlainFrames, chEnv]
+
+example : extract chEnv 13 1 =
+    .done [⟨⟨101, some 1⟩, false⟩, ⟨⟨102, some 2⟩, false⟩, ⟨⟨103, some 3⟩, false⟩] (.one (.item 9)) [] := by decide +kernel
